@@ -550,6 +550,29 @@ func rulesC06New(cx *Ctx, enum *enumInfo, stores []*ssa.Store, collecting map[st
 				obs = append(obs, bad(kkey, kd, "the dispatcher collects checks of this kind ("+at+") but the constructor does not defer the drain when this kind is selected: the collected checks are never applied", where))
 			}
 		}
+		// the reverse direction: the drain refuses to run for kinds other than the commit-based one, so it must not be
+		// deferred for them (else building the circuit panics in the deferred phase: the backend becomes unusable)
+		for _, kn := range knames {
+			if enum.ByName[kn] == commit {
+				continue
+			}
+			gK, rK := run(enum.ByName[kn])
+			kkey := "C06/O6.2/no-refusing-drain-for/" + kn
+			kd := "no drain that refuses kind " + kn + " is deferred when that kind is selected (circuits remain buildable with this backend)"
+			bad1 := ""
+			if rK && gK["defer"] {
+				for dd := range drains {
+					if ref, pos := drainRefusesNonCommit(dd, commit); ref {
+						bad1 = "the constructor defers " + P.FnName(dd) + " also for " + kn + ", and that function panics unless the kind is COMMIT (" + P.Pos(pos) + ")"
+					}
+				}
+			}
+			if bad1 != "" {
+				obs = append(obs, bad(kkey, kd, bad1, where))
+			} else {
+				obs = append(obs, good(kkey, kd, where))
+			}
+		}
 		gN, rN := run(native)
 		d = "when the native checker is selected, the constructor installs gnark's range checker (rangecheck.New)"
 		if rN && gN["install:gnark"] {
@@ -578,9 +601,49 @@ func rulesC06New(cx *Ctx, enum *enumInfo, stores []*ssa.Store, collecting map[st
 		obs = append(obs, bad("C06/O6.3/drain", "the deferred drain checks every collected (value, width)", "no deferred drain function was identified"))
 	}
 	for d := range drains {
+		if !vacuousExitFns[d] {
+			vacuousExitFns[d] = true
+			delete(fnInfoCache, d)
+		}
 		obs = append(obs, ruleDrain(cx, d)...)
 	}
 	return obs
+}
+
+// drainRefusesNonCommit: the drain panics when the chip's kind is not the commit-based one
+func drainRefusesNonCommit(d *ssa.Function, commit int64) (bool, token.Pos) {
+	fi := GetFnInfo(d)
+	for _, b := range d.Blocks {
+		iff, ok := b.Instrs[len(b.Instrs)-1].(*ssa.If)
+		if !ok {
+			continue
+		}
+		cmp, ok := iff.Cond.(*ssa.BinOp)
+		if !ok || (cmp.Op != token.EQL && cmp.Op != token.NEQ) {
+			continue
+		}
+		var k ssa.Value
+		if _, ok := fieldLoad(stripCopies(cmp.X), "rangeCheckerType"); ok {
+			k = cmp.Y
+		} else if _, ok := fieldLoad(stripCopies(cmp.Y), "rangeCheckerType"); ok {
+			k = cmp.X
+		} else {
+			continue
+		}
+		kv, ok := constInt(k)
+		if !ok || kv != commit {
+			continue
+		}
+		// the successor taken when the kind differs from COMMIT
+		other := b.Succs[1]
+		if cmp.Op == token.NEQ {
+			other = b.Succs[0]
+		}
+		if fi.Refuse[other.Index] {
+			return true, iff.Pos()
+		}
+	}
+	return false, token.NoPos
 }
 
 // boundTarget: the method a bound-method wrapper ($bound) forwards to.
